@@ -344,9 +344,12 @@ def bytesLe : Bytes → Bytes → Bool
 
 /-! ### U+FFFD substitution
 
-What `encoding/json`, Go's `range` over a string, and the WHATWG decoder do with ill-formed UTF-8:
+What `encoding/json` and Go's `range` over a string do with ill-formed UTF-8:
 every byte that does not start a well-formed sequence is replaced by U+FFFD (`EF BF BD`), one per
-byte (`utf8.DecodeRune` returns `(RuneError, 1)`), well-formed sequences are kept.  As a machine over
+byte (`utf8.DecodeRune` returns `(RuneError, 1)`), well-formed sequences are kept.  (Decoders that
+follow the Unicode "maximal subpart" practice – WHATWG, Python's `errors="replace"` – emit ONE
+U+FFFD for a truncated sequence such as `E2 82` where Go emits two; they replace the same positions,
+only the number of U+FFFD differs.  The correspondence op `san` checks this definition against Go.)  As a machine over
 the DFA above: `pend` holds the bytes of the sequence being read in state `st`. -/
 
 def fffd : Bytes := [0xEF, 0xBF, 0xBD]
